@@ -13,7 +13,7 @@ RULES = {
 }
 CONTROL_REV = '078b142'  # thorough tier: the rules must still report the defects found (and since fixed) on the original tree
 CONTROLS = [('C01.R2', 'afftree_from_layers_generic#dim:Argmax'), ('C01.R2', 'afftree_from_layers_generic#dim:ClassChar')]
-FLOORS = {'C01.R1': 7, 'C01.R2': 7, 'C01.R3': 1, 'C01.R4': 13}
+FLOORS = {'C01.R1': 7, 'C01.R2': 7, 'C01.R3': 1, 'C01.R4': 16}
 EXPLANATION = ('C01 is the composition of C02 (apply_func/compose), C03 (elimination), C17 (schema trees) and the clause decided here: the distiller feeds each layer to the right '
                'generator with the right arguments and keeps its running dimension equal to the tree\'s output dimension.')
 DOES_NOT_DECIDE = 'numeric agreement (delegated to C02/C03/C17 and their limits)'
@@ -80,9 +80,13 @@ def shared(ctx):
     prune.check_removals(sub, 'C01.R4')
     prune.check_childless(sub, 'C01.R4')
     prune.check_infeasible_provenance(sub, 'C01.R4')
+    prune.check_edge_feasible_table(sub, 'C01.R4')   # the activation layers are composed with on-the-fly pruning
     c09.run(sub)
+    from . import c04
+    c04.r2(sub)                                       # affine layers: apply_func rewrites every terminal with the layer
     keep = ('AffTree::infeasible_elimination#', 'AffTree::forward_if_redundant#', 'AffTree::generic_composition_inplace#', 'AffTree::phase_two#',
-            'AffTree::evaluate_decision#', 'AffTree::index_from_label#', 'AffTree::find_terminal#', 'AffTree::evaluate#')
+            'AffTree::evaluate_decision#', 'AffTree::index_from_label#', 'AffTree::find_terminal#', 'AffTree::evaluate#', 'AffTree::is_edge_feasible#',
+            'AffTree::apply_func#')
     for i in sub.insts:
         if i.site.startswith(keep):
             i.rule = 'C01.R4'
